@@ -68,6 +68,9 @@ def as_iter(eng, x):
         if isinstance(x, Slot): return ListIt([Agg("()", [Slot(e, 0), Slot(e, 1)]) for e in eng_order(eng, v)], byref=False)
         return ListIt([Agg("()", [e[0], e[1]]) for e in eng_order(eng, v)], byref=False)
     if isinstance(v, SetV): return ListIt(list(eng_order_set(eng, v)), byref=isinstance(x, Slot))
+    if isinstance(v, En) and v.enum == "Option":
+        if v.idx == 0: return ListIt([], False)
+        return ListIt([Slot(v.f, 0)], False) if isinstance(x, Slot) else ListIt([v.f[0]], False)
     if isinstance(v, Agg) and v.tag == "Range": return RangeIt(v)
     if isinstance(v, Agg) and v.tag == "RangeFrom": return RangeFromIt(v)
     if isinstance(v, Agg) and v.tag == "RangeInclusive": return RangeIt(Agg("Range", [v.f[0], eng.binop("Add", v.f[1], Sc(v.f[1].ty, 1))]))
